@@ -13,7 +13,8 @@
 From Coq Require Import List Arith Reals.
 From GB Require Import Base.Field Base.FNum Base.Tables Model.Shell Model.MomentInt Model.Overlap
   Proofs.CoreSumP Proofs.CoreBlockP Proofs.CoreDiffP Proofs.CoreNormP Proofs.CoreExamplesP Proofs.ScreeningP
-  Proofs.BlockMatP Proofs.AssembledP Proofs.AssembledOverlapP Proofs.AssembledRealP Proofs.AssembledExamplesP.
+  Model.Spherical Proofs.BlockMatP Proofs.AssembledP Proofs.AssembledOverlapP Proofs.AssembledRealP
+  Proofs.AssembledSphP Proofs.AssembledSphOverlapP Proofs.AssembledExamplesP.
 Import ListNotations.
 
 (* what the index symbols stand for (by definition) *)
@@ -206,3 +207,109 @@ Example C01_diag_one_example_R :
   forall I, I < 7 -> nth I (nth I (overlap_integral RK ex_basis_R None) []) 0%R = 1%R.
 Proof. exact diag_one_example_R. Qed.
 Print Assumptions C01_diag_one_example_R.
+
+(* ================= spherical / mixed bases (any assignment of coordinate types) =================
+   Output index map: osize s = number of spherical labels (spherical shell) or of Cartesian components
+   (Cartesian shell); oidx bs k m q = ooff bs k + (m * osize s_k + q), ooff bs k = sum_{t<k} nseg s_t * osize s_t.
+   tco s q c = T_s[q][c] (Model/Spherical.shell_transform = generate_transformation) for a spherical shell,
+   delta_{q c} for a Cartesian one;  dsum a b q q' X = sum_{c<ncomp a} sum_{c'<ncomp b} tco a q c * tco b q' c' * X c c';
+   to_cart s = s with coord_type Cartesian. *)
+Theorem C01_mixed_unfold :
+  forall (F : Type) (K : Fops F) (bs : list (shell F)) (a b : shell F) (k m q q' : nat) (X : nat -> nat -> F),
+  oidx K bs k m q = ooff K bs k + (m * osize (sh_at K bs k) + q)
+  /\ ooff K bs (S k) = ooff K bs k + nseg (sh_at K bs k) * osize (sh_at K bs k) /\ ooff K bs 0 = 0
+  /\ ototal K bs = ooff K bs (length bs)
+  /\ osize a = (if s_sph a then length (labels_of a) else length (comps_of a))
+  /\ tco K a q m = (if s_sph a then nth m (nth q (shell_transform K a) []) (f0 K)
+                    else if Nat.eqb q m then f1 K else f0 K)
+  /\ dsum K a b q q' X
+     = FNum.fsum K (mk (ncomp a) (fun c => FNum.fsum K (mk (ncomp b) (fun c' =>
+         fmul K (fmul K (tco K a q c) (tco K b q' c')) (X c c')))))
+  /\ to_cart a = mkShell F (s_l a) (s_x a) (s_y a) (s_z a) (s_exps a) (s_coeffs a) false (s_comps a) (s_labels a).
+Proof. exact (fun F K bs a b k m q q' X => conj eq_refl (conj eq_refl (conj eq_refl (conj eq_refl
+         (conj eq_refl (conj eq_refl (conj eq_refl eq_refl))))))). Qed.
+Print Assumptions C01_mixed_unfold.
+
+Theorem C01_mixed_index_surjective :
+  forall (F : Type) (K : Fops F) (bs : list (shell F)) (I : nat), I < ototal K bs ->
+  exists k m q, k < length bs /\ m < nseg (sh_at K bs k) /\ q < osize (sh_at K bs k) /\ I = oidx K bs k m q.
+Proof. exact (fun F K => oidx_surj K). Qed.
+Print Assumptions C01_mixed_index_surjective.
+
+(* the assembled overlap matrix of ANY basis (each shell Cartesian or spherical) is (+)_s T_s applied on both
+   indices to the assembled matrix of the same basis with every shell Cartesian — at EVERY position, evaluated
+   blocks and transposed copies alike *)
+Theorem C01_overlap_mixed_is_cart_transformed :
+  forall (F : Type) (K : Fops F), is_field K ->
+  (forall x : F, fapx K x = x) -> fadd K (f1 K) (f1 K) <> f0 K ->
+  forall bs : list (shell F), (forall s, In s bs -> 0 < nseg s) -> basis_wf bs -> basis_exps K bs bs ->
+  forall i j m q m' q', i < length bs -> j < length bs ->
+  m < nseg (sh_at K bs i) -> q < osize (sh_at K bs i) -> m' < nseg (sh_at K bs j) -> q' < osize (sh_at K bs j) ->
+  nth (oidx K bs j m' q') (nth (oidx K bs i m q) (overlap_integral K bs None) []) (f0 K)
+  = dsum K (sh_at K bs i) (sh_at K bs j) q q' (fun c c' =>
+      nth (gidx K (map to_cart bs) j m' c') (nth (gidx K (map to_cart bs) i m c)
+          (overlap_integral K (map to_cart bs) None) []) (f0 K)).
+Proof. exact (fun F K Kf Hapx H2 => overlap_mixed_is_cart_transformed K Kf Hapx H2). Qed.
+Print Assumptions C01_overlap_mixed_is_cart_transformed.
+
+(* ... i.e. the transformed normalised contracted spec *)
+Theorem C01_overlap_integral_mixed_entry :
+  forall (F : Type) (K : Fops F), is_field K ->
+  (forall x : F, fapx K x = x) -> fadd K (f1 K) (f1 K) <> f0 K ->
+  forall bs : list (shell F), (forall s, In s bs -> 0 < nseg s) -> basis_wf bs -> basis_exps K bs bs ->
+  forall i j m q m' q', i < length bs -> j < length bs ->
+  m < nseg (sh_at K bs i) -> q < osize (sh_at K bs i) -> m' < nseg (sh_at K bs j) -> q' < osize (sh_at K bs j) ->
+  let sa := sh_at K bs i in let sb := sh_at K bs j in
+  nth (oidx K bs j m' q') (nth (oidx K bs i m q) (overlap_integral K bs None) []) (f0 K)
+  = dsum K sa sb q q' (fun c c' =>
+      fmul K (fmul K (ncont K sa m c) (ncont K sb m' c'))
+        (contracted K sa sb (nth c (comps_of sa) (0,0,0)) (nth c' (comps_of sb) (0,0,0)) m m'
+           (ovl_prim K sa sb (nth c (comps_of sa) (0,0,0)) (nth c' (comps_of sb) (0,0,0))))).
+Proof. exact (fun F K Kf Hapx H2 => overlap_integral_mixed_entry K Kf Hapx H2). Qed.
+Print Assumptions C01_overlap_integral_mixed_entry.
+
+Theorem C01_overlap_integral_mixed_shape :
+  forall (F : Type) (K : Fops F) (bs : list (shell F)), (forall s, In s bs -> 0 < nseg s) -> 0 < length bs ->
+  length (overlap_integral K bs None) = ototal K bs
+  /\ forall I, I < ototal K bs -> length (nth I (overlap_integral K bs None) []) = ototal K bs.
+Proof. exact (fun F K bs C => overlap_integral_mixed_shape K bs C). Qed.
+Print Assumptions C01_overlap_integral_mixed_shape.
+
+(* the processed block of one shell pair, any coordinate types, any element module (no algebraic law):
+   T_2 on the second index after T_1 on the first index of the normalised Cartesian block *)
+Theorem C01_shell_block_spec :
+  forall (F : Type) (K : Fops F) (A : Type) (azero : A) (aadd : A -> A -> A) (ascale : F -> A -> A)
+         (sph1 sph2 : bool) (T1 T2 n1 n2 : list (list F)) (blk : list (list (list (list A))))
+         (M1 L1 M2 L2 : nat),
+  shape2 M1 L1 n1 -> shape2 M2 L2 n2 -> shape4 M1 L1 M2 L2 blk -> 0 < L1 ->
+  (sph1 = true -> Forall (fun r => length r = L1) T1) -> (sph2 = true -> Forall (fun r => length r = L2) T2) ->
+  let O1 := if sph1 then length T1 else L1 in let O2 := if sph2 then length T2 else L2 in
+  let B := Model.Assembly.shell_block K azero aadd ascale sph1 sph2 T1 T2 n1 n2 blk in
+  (length B = M1 * O1 /\ Forall (fun row => length row = M2 * O2) B) /\
+  forall m1 q1 m2 q2, m1 < M1 -> q1 < O1 -> m2 < M2 -> q2 < O2 ->
+    nth (m2 * O2 + q2) (nth (m1 * O1 + q1) B []) azero
+    = tsum K azero aadd ascale sph2 T2 L2 q2 (fun c2 => tsum K azero aadd ascale sph1 T1 L1 q1 (fun c1 =>
+        ascale (fmul K (nth c1 (nth m1 n1 []) (f0 K)) (nth c2 (nth m2 n2 []) (f0 K)))
+               (get4 azero m1 c1 m2 c2 blk))).
+Proof. exact (fun F K A z a s => shell_block_spec K z a s). Qed.
+Print Assumptions C01_shell_block_spec.
+
+(* a mixed basis over Qc meeting every hypothesis: spherical generalized d shell, Cartesian p shell, spherical
+   contracted s shell (14 functions), and the transformation theorem at a lower-triangle position *)
+Example C01_mixed_hypotheses_Qc :
+  forall opi osqrt oexp oln oboys,
+  let K := KQ opi osqrt oexp oln oboys in
+  (forall s, In s ex_mixed -> 0 < nseg s) /\ basis_wf ex_mixed /\ basis_exps K ex_mixed ex_mixed
+  /\ ototal K ex_mixed = 14 /\ osize (sh_at K ex_mixed 0) = 5 /\ ncomp (sh_at K ex_mixed 0) = 6
+  /\ oidx K ex_mixed 0 1 3 = 8 /\ oidx K ex_mixed 1 0 2 = 12.
+Proof. exact mixed_hypotheses_satisfiable. Qed.
+Print Assumptions C01_mixed_hypotheses_Qc.
+
+Example C01_overlap_mixed_lower_Qc :
+  forall opi osqrt oexp oln oboys,
+  let K := KQ opi osqrt oexp oln oboys in
+  nth 8 (nth 12 (overlap_integral K ex_mixed None) []) (f0 K)
+  = dsum K ex_sb ex_sa_sph 2 3 (fun c c' =>
+      nth (gidx K ex_basis 0 1 c') (nth (gidx K ex_basis 1 0 c) (overlap_integral K ex_basis None) []) (f0 K)).
+Proof. exact overlap_mixed_lower_ex. Qed.
+Print Assumptions C01_overlap_mixed_lower_Qc.
